@@ -2,6 +2,7 @@
    Only property theorems, each closed by `exact <lemma>` and followed by Print Assumptions. *)
 From SV Require Import Model.PeakHelpers Spec.PeakHelpersSpec Proof.PeakHelpersProof.
 From SV Require Import Model.Peaks Spec.PeaksSpec Proof.PeaksProof Proof.PeaksTheorems Proof.PeaksExamples.
+From SV Require Import Model.Groups Proof.GroupsProof.
 From SV Require Import Model.Merging Spec.MergingSpec Proof.ReplaceMergedProof Proof.MergePeaksProof.
 From SV Require Import Proof.ReplaceMergedSorted Proof.PeaksNoCut Proof.MergeWaveformProof.
 From SV Require Import Model.PeakProps Spec.PeakPropsSpec Proof.PeakPropsProof.
@@ -89,6 +90,43 @@ Theorem C19_find_peaks_disjoint_ordered_refuted :
     find_peaks P gains nch hs = Ok ps /\ ~ peaks_disjoint_ordered ps.
 Proof. exact find_peaks_overlap_witness. Qed.
 Print Assumptions C19_find_peaks_disjoint_ordered_refuted.
+
+(* find_peak_groups (peaks clustered through fake hits of dt 1, area 1, channel 0): whenever it
+   succeeds, the result is one interval per cluster of THE gap clustering of the peaks (every peak
+   in exactly one cluster, in order; no cluster is dropped), from the cluster's first start minus
+   left_extension to its latest end plus right_extension *)
+Theorem C19_find_peak_groups_are_gap_clusters : forall gap lext rext maxdur pk out,
+  find_peak_groups gap lext rext maxdur pk = Ok out ->
+  fp_asserts (group_params gap lext rext maxdur) [1] (map fake_hit pk) = true ->
+  exists gs, Clustering (group_params gap lext rext maxdur) (map fake_hit pk) gs /\
+             (forall gs', Clustering (group_params gap lext rext maxdur) (map fake_hit pk) gs' -> gs' = gs) /\
+             concat gs = map fake_hit pk /\
+             out = map (fun g => (gfirst g - lext, gend g + rext)) gs.
+Proof. exact find_peak_groups_spec. Qed.
+Print Assumptions C19_find_peak_groups_are_gap_clusters.
+
+(* add_lone_hits: when every lone hit is assigned -1 or a peak that contains it (what
+   fully_contained_in returns, C17), there is no ValueError; times, lengths, dt and buffer sizes
+   are untouched, and every peak gains exactly the areas (x gain) of the lone hits assigned to it:
+   in area, in the waveform (delta pulses) and in area_per_channel *)
+Theorem C19_add_lone_hits_conserves : forall gains fc lhs peaks,
+  alh_valid peaks fc lhs ->
+  exists peaks', add_lone_hits gains peaks fc lhs = Ok peaks' /\
+    map lshape peaks' = map lshape peaks /\
+    forall k, 0 <= k < zlen peaks ->
+      let p := nth (Z.to_nat k) peaks lp0 in let p' := nth (Z.to_nat k) peaks' lp0 in
+      lp_area p' = lp_area p + added gains k fc lhs /\
+      zsum (lp_data p') = zsum (lp_data p) + added gains k fc lhs /\
+      zsum (lp_apc p') = zsum (lp_apc p) + added gains k fc lhs.
+Proof. exact add_lone_hits_conserves. Qed.
+Print Assumptions C19_add_lone_hits_conserves.
+
+Theorem C19_add_lone_hits_keeps_area_integral : forall gains fc lhs peaks peaks',
+  alh_valid peaks fc lhs -> add_lone_hits gains peaks fc lhs = Ok peaks' ->
+  Forall (fun p => lp_area p = zsum (lp_data p) /\ lp_area p = zsum (lp_apc p)) peaks ->
+  Forall (fun p => lp_area p = zsum (lp_data p) /\ lp_area p = zsum (lp_apc p)) peaks'.
+Proof. exact add_lone_hits_keeps_area_integral. Qed.
+Print Assumptions C19_add_lone_hits_keeps_area_integral.
 
 (* ------------------------------------------------------------------------------------------ *)
 (* replace_merged / _replace_merged: for skip windows that lie inside the array, do not overlap
